@@ -1036,8 +1036,6 @@ def main(ctx):
 
     def h_check(kind, op, res):
         depth = int(kind[1:])
-        if op[0] == "badids":
-            return "lookup_id with ra and dec of different length was accepted"
         if op[0] == "ids":
             ids = np.asarray(res[0])
             if ids.shape != (5,) or ids.min() < 8 * 4 ** depth or ids.max() >= 16 * 4 ** depth:
@@ -1052,4 +1050,5 @@ def main(ctx):
 
     object_world(ctx, "several-objects", ["d3", "d6", "d9"], lambda kind: htm.HTM(int(kind[1:])),
                  [("ids",), ("intersect", 1.0, True), ("intersect", 1.0, False), ("bincount",), ("badids",)], h_do, h_modules,
-                 depth=ctx.pick(4, 5), check=h_check, state=lambda h: getattr(h, "__dict__", {}))
+                 depth=ctx.pick(4, 5), check=h_check, state=lambda h: getattr(h, "__dict__", {}),
+                 must_raise=lambda kind, op: op[0] == "badids")
